@@ -294,6 +294,10 @@ class Interp:
                 ho.fields[k] = self.from_desc(x, label + "." + k)
             except Unsupported:
                 pass
+        # module-level singletons satisfy their class invariant: established by the module-initialisation
+        # lemmas (contracts/module_init.py), assumed wherever the global is used
+        self.ctx.notes.append("global %s assumed to satisfy its class invariant (proved by lemma module_init)" % label.split(".")[-1]) if self.reg.invariants.get(cls.qual) else None
+        self.ctx.verifier.assume_invariants(self, o, label)
         return o
 
     # =========================================================================================
@@ -532,7 +536,9 @@ class Interp:
         if isinstance(op, ast.Div) and isinstance(a, int) and isinstance(b, int):
             if b == 0:
                 raise ZeroDivisionError
-            return SFrac(IV(a), IV(b)) if a % b != 0 else float(a // b) if False else SFrac(IV(a), IV(b))
+            if abs(a) < 2 ** 52 and abs(b) < 2 ** 52:
+                return a / b          # exact enough: CPython computes the correctly rounded quotient
+            return SFrac(IV(a), IV(b))
         return f(a, b)
 
     def bitand(self, a, b):
@@ -836,7 +842,9 @@ class Interp:
             if f is not None:
                 if f.is_classmethod:
                     return SFunc(f, v)
-                return SFunc(f)
+                sf = SFunc(f)
+                sf.static = True      # Class.method(obj, ...): no dynamic dispatch
+                return sf
             ca = self.repo.lookup_class_attr(v.cinfo, name)
             if ca is not None:
                 return self.class_attr_value(ca)
@@ -909,6 +917,9 @@ class Interp:
 
     def obj_getattr(self, ov, name, pure=False):
         ho = self.ctx.obj(ov)
+        ga = self.reg.ghost_attrs.get(name) if self.reg.ghost_attrs else None
+        if ga is not None and isinstance(ho.cls, ClassInfo) and ho.cls.qual.startswith(ga[0]):
+            return ga[1](self, ov)
         if self.reg.aliases:
             for cq in ([c.qual for c in self.repo.mro(ho.cls) if isinstance(c, ClassInfo)] if isinstance(ho.cls, ClassInfo) else [ho.cls]):
                 if (cq, name) in self.reg.aliases:
@@ -1055,7 +1066,7 @@ class Interp:
             a = list(args)
             if fv.self_val is not None:
                 a = [fv.self_val] + a
-            return self.call_function(fv.finfo, a, kwargs, node, closure=fv.closure)
+            return self.call_function(fv.finfo, a, kwargs, node, closure=fv.closure, static=getattr(fv, "static", False))
         if isinstance(fv, SClass):
             return self.instantiate(fv.cinfo, args, kwargs, node)
         if isinstance(fv, SEntropy):
@@ -1114,9 +1125,9 @@ class Interp:
                     raise Raise("TypeError")
         return env
 
-    def call_function(self, finfo, args, kwargs, node=None, closure=None):
+    def call_function(self, finfo, args, kwargs, node=None, closure=None, static=False):
         c = self.reg.get(finfo.qual)
-        if finfo.cls is not None and args:
+        if finfo.cls is not None and args and not static:
             recv = args[0]
             rc = None
             if isinstance(recv, SObj) and isinstance(self.ctx.obj(recv).cls, ClassInfo):
